@@ -358,7 +358,7 @@ pub fn property() -> Property {
             "numbers print in Rust's shortest round-trip decimal form ({}), as the interpreter documents by its own tests",
             "^ is f64::powf on both sides (IEEE-754 does not define pow; the statement's 'IEEE double arithmetic' is read as the platform powf)",
         ],
-        fuzz: Some(FuzzSpec { target: "c02_expr", runs: 1_000_000, max_len: 64, verdict: crate::fuzz::c02_verdict }),
+        fuzz: Some(FuzzSpec { target: "c02_expr", runs: 300_000, max_len: 64, verdict: crate::fuzz::c02_verdict }),
         families,
         prelude: None,
         epilogue: None,
